@@ -168,6 +168,24 @@ where
         .map(|q| {
             let text: Vec<u8> = q.iter().map(|&i| letters[i]).collect();
             let mut s: StripedSequence<A, DefaultColumns> = EncodedSequence::<A>::encode(&text).unwrap().to_striped();
+            if spec.backend.ends_with("+pad") {
+                // an in-contract striped sequence whose padding cells (positions >= len) are NOT the
+                // wildcard, as `StripedSequence::new` over a user matrix or `StripedSequence::sample`
+                // produce: nothing the sampler reports may depend on them
+                let len = s.len();
+                let mut m = s.into_matrix();
+                let rows = m.rows();
+                let kk = A::symbols().len() - 1;
+                for r in 0..rows {
+                    for c in 0..DefaultColumns::USIZE {
+                        let p = c * rows + r;
+                        if p >= len {
+                            m[r][c] = A::symbols()[p % kk];
+                        }
+                    }
+                }
+                s = StripedSequence::new(m, len).unwrap();
+            }
             s.configure_wrap(spec.wrap);
             s
         })
@@ -231,8 +249,9 @@ where
 }
 
 fn run_spec(spec: &Spec) -> Trace {
-    if spec.backend != "native" {
-        assert!(verif::force_backend(&spec.backend));
+    let arm = spec.backend.trim_end_matches("+pad");
+    if arm != "native" {
+        assert!(verif::force_backend(arm));
     }
     let tr = if spec.alpha == "dna" {
         run_sampler::<Dna>(spec, DNA)
@@ -546,6 +565,46 @@ pub fn generate(cfg: &Cfg) -> Vec<String> {
                 maxsteps: if cfg.thorough { 400 } else { 100 },
                 wrap: w + rng.below(40),
                 backend: (*rng.pick(&["native", "generic", "sse2", "avx2"])).into(),
+                seqs,
+            });
+        }
+        // many sequences (more than a machine word of activity flags), zero-or-one mode, long enough
+        // for sequences to be recruited and dropped; and datasets whose padding cells are not the wildcard
+        for rep in 0..(if cfg.thorough { 6 } else { 2 }) * cfg.boost {
+            let w = rng.range(2, 6);
+            let n = rng.range(64, 72);
+            let seqs = dataset(&mut rng, k, n, w, 12);
+            push(Spec {
+                alpha: alpha.into(),
+                zoops: true,
+                w,
+                initial: rng.range(n / 3, n / 2),
+                inertia: rng.below(20),
+                patience: 100_000,
+                rngseed: rng.next(),
+                maxsteps: if cfg.thorough { 3000 } else { 700 },
+                wrap: w,
+                backend: if rep % 2 == 0 { "native".into() } else { "native+pad".into() },
+                seqs,
+            });
+        }
+        for _ in 0..(if cfg.thorough { 40 } else { 6 }) * cfg.boost {
+            let w = rng.range(1, 12);
+            let n = rng.range(3, 8);
+            let zoops = rng.chance(1, 2);
+            let seqs = dataset(&mut rng, k, n, w, 45);
+            let initial = if zoops { rng.range(2, n) } else { 0 };
+            push(Spec {
+                alpha: alpha.into(),
+                zoops,
+                w,
+                initial,
+                inertia: if zoops { rng.below(30) } else { 0 },
+                patience: if zoops { 100_000 } else { 0 },
+                rngseed: rng.next(),
+                maxsteps: 120,
+                wrap: w + rng.below(3),
+                backend: format!("{}+pad", rng.pick(&["native", "generic", "sse2", "avx2"])),
                 seqs,
             });
         }
